@@ -35,6 +35,7 @@ void check_C08(Src &s, Ctx &ctx) {
     SpecOpts so; so.min_outs = 1; so.max_outs = 2; so.cap = cfg().tier ? 350 : 250; so.transforms = false; so.conformal = false; so.limits = false;
     GridState st; st.cap = so.cap; st.ctx = &ctx;
     st.spec = decode_spec(s, so); st.vm.decode(s);
+    if (s.n >= 3 && (s.p[s.n - 1] % 8) == 5) { st.vm.degenerate = 1 + (s.p[s.n - 2] % 3); ctx.label("model:degenerate"); }   // one case in eight: constant / affine / one-active-direction model (coefficients vanish exactly)
     int d = st.spec.dims;
     // limits at make time: present in 2/3 of the cases; biased towards binding values
     if (s.chance(2, 3)) st.spec.limits = decode_limits(s, d);
